@@ -83,40 +83,8 @@ Proof. vm_compute. repeat split; reflexivity. Qed.
 Print Assumptions C01_ex_equal_key_rejected.
 
 (* ---- structural facts extracted from the source by T1: order of the steps in the code ---- *)
-From BV Require Import Gen.Tables Proofs.StructureFacts.
+From BV Require Import Gen.Tables.
 Local Open Scope N_scope.
-Theorem C01_repo_order_cli_test :
-  ORDER_CLI_TEST = [
-  [95;118;97;108;105;100;97;116;101;95;114;101;108;101;97;115;101;95;116;97;103] (* _validate_release_tag *);
-  [95;118;97;108;105;100;97;116;101;95;102;108;97;103;115] (* _validate_flags *);
-  [95;118;97;108;105;100;97;116;101;95;100;97;116;101] (* _validate_date *);
-  [105;110;99;114;95;100;105;115;112;97;116;99;104] (* incr_dispatch *);
-  [95;105;115;95;118;97;108;105;100;95;118;101;114;115;105;111;110] (* _is_valid_version *);
-  [118;101;114;115;105;111;110;46;116;111;95;112;101;112;52;52;48] (* version.to_pep440 *);
-  [99;108;105;99;107;46;101;99;104;111] (* click.echo *);
-  [99;108;105;99;107;46;101;99;104;111] (* click.echo *)
-  ].
-Proof. exact repo_order_cli_test. Qed.
-Print Assumptions C01_repo_order_cli_test.
-
-Theorem C01_repo_order_cli_update :
-  ORDER_CLI_UPDATE = [
-  [95;118;97;108;105;100;97;116;101;95;114;101;108;101;97;115;101;95;116;97;103] (* _validate_release_tag *);
-  [95;118;97;108;105;100;97;116;101;95;100;97;116;101] (* _validate_date *);
-  [99;111;110;102;105;103;46;105;110;105;116] (* config.init *);
-  [95;112;97;114;115;101;95;118;99;115;95;111;112;116;105;111;110;115] (* _parse_vcs_options *);
-  [95;117;112;100;97;116;101;95;99;102;103;95;102;114;111;109;95;118;99;115] (* _update_cfg_from_vcs *);
-  [105;110;99;114;95;100;105;115;112;97;116;99;104] (* incr_dispatch *);
-  [95;105;115;95;118;97;108;105;100;95;118;101;114;115;105;111;110] (* _is_valid_version *);
-  [95;112;114;105;110;116;95;100;105;102;102] (* _print_diff *);
-  [99;111;109;109;105;116;95;109;115;103;95;116;101;109;112;108;97;116;101;46;102;111;114;109;97;116] (* commit_msg_template.format *);
-  [116;97;103;95;109;115;103;95;116;101;109;112;108;97;116;101;46;102;111;114;109;97;116] (* tag_msg_template.format *);
-  [60;105;102;32;100;114;121;58;32;114;101;116;117;114;110;62] (* <if dry: return> *);
-  [95;116;114;121;95;117;112;100;97;116;101] (* _try_update *)
-  ].
-Proof. exact repo_order_cli_update. Qed.
-Print Assumptions C01_repo_order_cli_update.
-
 (* ---- Proofs.SemverE2E ---- *)
 From Coq Require Import List Bool NArith ZArith Arith.
 From BV Require Import Lib.PyStr Lib.Decimal Model.V2 Model.Pep440 Model.Cli Proofs.DottedFacts Proofs.SemverE2E.
@@ -166,3 +134,22 @@ Print Assumptions C01_calver_e2e.
 Theorem C01_parse_vdj : ltac:(let t := type of parse_vdj in exact t).
 Proof. exact parse_vdj. Qed.
 Print Assumptions C01_parse_vdj.
+
+(* ---- call orders extracted from the source by T1: the steps this property rests on ---- *)
+From Coq Require Import Strings.String.
+From BV Require Import Lib.StrLit Gen.Tables Proofs.OrderC01.
+Local Open Scope string_scope.
+
+(* in cli.update the command line options are merged before the version to start from is resolved, the gate runs after the increment and before anything is printed as a diff or written *)
+Theorem C01_repo_order_update :
+  restrict (lits ["_parse_vcs_options"; "_update_cfg_from_vcs"; "incr_dispatch"; "_is_valid_version"; "_print_diff"; "_try_update"]) ORDER_CLI_UPDATE
+  = lits ["_parse_vcs_options"; "_update_cfg_from_vcs"; "incr_dispatch"; "_is_valid_version"; "_print_diff"; "_try_update"].
+Proof. exact c01_order_update. Qed.
+Print Assumptions C01_repo_order_update.
+
+(* in cli.test the gate runs after the increment and before the two output lines *)
+Theorem C01_repo_order_test :
+  restrict (lits ["incr_dispatch"; "_is_valid_version"; "version.to_pep440"; "click.echo"]) ORDER_CLI_TEST
+  = lits ["incr_dispatch"; "_is_valid_version"; "version.to_pep440"; "click.echo"; "click.echo"].
+Proof. exact c01_order_test. Qed.
+Print Assumptions C01_repo_order_test.
